@@ -1,7 +1,7 @@
 (* C03 — A restart changes nothing observable.
    Only statements, each closed by [exact] of a lemma proved in Proofs/, and Print Assumptions. *)
-From DV Require Import Base.Prelude Model.Persist Model.IDs Model.MapLog
-     Proofs.Persist Proofs.IDs Proofs.MapLog Proofs.Restart.
+From DV Require Import Base.Prelude Model.Persist Model.Heads Model.IDs Model.MapLog Model.MapLogV
+     Proofs.Persist Proofs.IDs Proofs.MapLog Proofs.Restart Proofs.Heads Proofs.MapLogV.
 Local Open Scope N_scope.
 
 (* ---- repos, version DAG, commit flags, instances ---- *)
@@ -57,6 +57,84 @@ Theorem C03_branch_heads_examples :
    branch_head m 1 0 = Some 5).
 Proof. exact branch_head_examples. Qed.
 Print Assumptions C03_branch_heads_examples.
+
+(* Round 4.  The CACHE of the repaired code (Model.Heads.hstep: branchToUUID is replaced from the DAG
+   by newRepo, newVersion and accepted merges only; commit, instance creation/deletion, repo deletion
+   and REFUSED requests do not touch it; a refused merge changes nothing at all) against the cache
+   start-up builds (hrestart).  For EVERY request list -- no acceptance hypothesis -- from every
+   state where memory, cache and store agree (hgood), cut anywhere: the restart succeeds, shows the
+   same repos, resolves every branch name of every repo there is to the same node as the running
+   server's cache, and is a state the theorem applies to again.  By induction over the requests. *)
+Theorem C03_branch_heads_cache_restart : forall C m hc img ops, hgood m hc img ->
+  let '(m', hc', img') := hrun_img C m hc img ops in
+  exists mr hcr imgr, hrestart C img' = Ok (mr, hcr, imgr) /\ hobs_eq m' hc' mr hcr /\ hgood mr hcr imgr.
+Proof. exact heads_restart_general. Qed.
+Print Assumptions C03_branch_heads_cache_restart.
+
+(* non-vacuity: the state of a server started on an empty store is such a state *)
+Example C03_hgood_initial : forall C, hgood (init_mgr C) [] (apply_ws empty_image (init_writes C)).
+Proof. exact hgood_init. Qed.
+Print Assumptions C03_hgood_initial.
+
+(* hence without any hypothesis: every request list on a new server; in addition the running
+   server's cache IS the DAG function (branch_head) for every repo there is *)
+Theorem C03_branch_heads_cache_from_init : forall C ops,
+  let '(m', hc', img') := hrun_img C (init_mgr C) [] (apply_ws empty_image (init_writes C)) ops in
+  exists mr hcr imgr, hrestart C img' = Ok (mr, hcr, imgr) /\ pobserve mr = pobserve m' /\
+    forall rid br, amem rid (m_repos m') = true ->
+      cached_head hcr rid br = cached_head hc' rid br /\ cached_head hc' rid br = branch_head m' rid br.
+Proof. exact heads_restart_from_init. Qed.
+Print Assumptions C03_branch_heads_cache_from_init.
+
+(* a history with refused merges (unlocked parent, a parent listed twice), evaluated *)
+Example C03_branch_heads_cache_example :
+  let '(m, hc, img) := hrun_img r_conf (init_mgr r_conf) [] (apply_ws empty_image (init_writes r_conf)) hx_ops in
+  map (cached_head hc 1) [0; 7; 8; 9] = [Some 4; Some 3; Some 5; None] /\
+  match hrestart r_conf img with
+  | Ok (mr, hcr, _) => map (cached_head hcr 1) [0; 7; 8; 9] = [Some 4; Some 3; Some 5; None] /\ pobserve mr = pobserve m
+  | _ => False
+  end.
+Proof. exact heads_cache_example. Qed.
+Print Assumptions C03_branch_heads_cache_example.
+
+(* Round 4, any number of restarts interleaved with requests: run h1; restart; run h2; restart; ...;
+   run hn (hrun_segs: each restart replaces the manager by the loaded one and the cache by the one
+   start-up builds) succeeds and is observably -- repos and every branch name of every repo there
+   is -- the uninterrupted run of h1 ++ h2 ++ ... ++ hn, for EVERY list of request lists (refused
+   requests included); the final state is again one the theorem applies to. *)
+Theorem C03_restarts_interleaved : forall C segs m hc img, hgood m hc img -> inst_ok C m ->
+  exists mf hcf imgf, hrun_segs C m hc img segs = Ok (mf, hcf, imgf) /\
+    hgood mf hcf imgf /\ inst_ok C mf /\
+    let '(m', hc', _) := hrun_img C m hc img (concat segs) in hobs_eq mf hcf m' hc'.
+Proof. exact segs_refine_same. Qed.
+Print Assumptions C03_restarts_interleaved.
+
+Example C03_inst_ok_initial : forall C, inst_ok C (init_mgr C).
+Proof. exact inst_ok_init. Qed.
+Print Assumptions C03_inst_ok_initial.
+
+(* without hypotheses: a server started on an empty store *)
+Theorem C03_restarts_interleaved_from_init : forall C segs,
+  exists mf hcf imgf,
+    hrun_segs C (init_mgr C) [] (apply_ws empty_image (init_writes C)) segs = Ok (mf, hcf, imgf) /\
+    let '(m', hc', _) := hrun_img C (init_mgr C) [] (apply_ws empty_image (init_writes C)) (concat segs) in
+    hobs_eq mf hcf m' hc'.
+Proof. exact segs_refine_from_init. Qed.
+Print Assumptions C03_restarts_interleaved_from_init.
+
+Example C03_restarts_interleaved_example :
+  let segs := [[PNewRepo 11; PCommit 1 1; PNewVersion 1 1 None 12; PNewVersion 1 1 (Some 7) 13; PMerge 1 [2; 3] 14];
+               [PCommit 1 2; PMerge 1 [2; 2] 15; PCommit 1 3; PMerge 1 [3; 2] 17];
+               [PNewVersion 1 2 (Some 8) 18; PNewData 1 5]] in
+  match hrun_segs r_conf (init_mgr r_conf) [] (apply_ws empty_image (init_writes r_conf)) segs with
+  | Ok (mf, hcf, _) =>
+    let '(m', hc', _) := hrun_img r_conf (init_mgr r_conf) [] (apply_ws empty_image (init_writes r_conf)) (concat segs) in
+    pobserve mf = pobserve m' /\ map (cached_head hcf 1) [0; 7; 8] = [Some 4; Some 3; Some 5] /\
+    map (cached_head hc' 1) [0; 7; 8] = [Some 4; Some 3; Some 5]
+  | _ => False
+  end.
+Proof. exact segs_example. Qed.
+Print Assumptions C03_restarts_interleaved_example.
 
 (* The code as it stood: heads recomputed from LEAVES on load vs the live map kept by newRepo and
    newVersion ([live_head] / [rebuilt_head]). *)
@@ -124,6 +202,60 @@ Theorem C03_maplog_replay_refuted :
   mp_splits (replay mp_empty (snd (run_ops true mp_empty ops))) = [(7, 11, 21, 22); (7, 11, 21, 22)].
 Proof. exact maplog_replay_refuted. Qed.
 Print Assumptions C03_maplog_replay_refuted.
+
+(* Round 4, a DAG of versions (Model.MapLogV): mutations carry their version, a version's entries
+   and log are its own, lookups go to the nearest ancestor that wrote, a new version sees its
+   ancestors'.  For EVERY ancestry table (any DAG), every history of merges, cleaves and supervoxel
+   splits (op_ok) at any versions in any interleaving, each split logged once: the family start-up
+   replays from the per-version logs answers, through ANY ancestry, every supervoxel's label and the
+   split record list (GET supervoxel-splits) exactly as the running server's. *)
+Theorem C03_maplog_replay_versions : forall ancs ops, forallb (fun vo => op_ok (snd vo)) ops = true ->
+  let '(st, lg) := vrun false ancs ([], []) ops in
+  forall anc, (forall sv, vmapped (vreplay lg) anc sv = vmapped st anc sv) /\ vsplits (vreplay lg) anc = vsplits st anc.
+Proof. exact vmaplog_replay. Qed.
+Print Assumptions C03_maplog_replay_versions.
+
+(* as the code stood (split logged twice) the labels are rebuilt at every version all the same *)
+Theorem C03_maplog_replay_versions_partial : forall ancs ops, forallb (fun vo => op_ok (snd vo)) ops = true ->
+  let '(st, lg) := vrun true ancs ([], []) ops in
+  forall anc sv, vmapped (vreplay lg) anc sv = vmapped st anc sv.
+Proof. exact vmaplog_replay_mapping. Qed.
+Print Assumptions C03_maplog_replay_versions_partial.
+
+(* non-vacuity and the shape of the answers: chain 1 <- 2 <- 3 and a sibling 4 of 3 *)
+Example C03_maplog_versions_example :
+  forallb (fun vo => op_ok (snd vo)) vx_ops = true /\
+  let '(st, lg) := vrun false vx_ancs ([], []) vx_ops in
+  map (vmapped st [3; 2; 1]) [11; 12; 21; 22; 23] = [0; 30; 10; 10; 23] /\
+  map (vmapped (vreplay lg) [3; 2; 1]) [11; 12; 21; 22; 23] = [0; 30; 10; 10; 23] /\
+  map (vmapped st [4; 2; 1]) [11; 12; 21; 23; 24] = [0; 0; 10; 10; 10] /\
+  vsplits st [4; 2; 1] = [(9, 12, 23, 24); (7, 11, 21, 22)] /\
+  vsplits (vreplay lg) [4; 2; 1] = [(9, 12, 23, 24); (7, 11, 21, 22)] /\
+  vsplits st [3; 2; 1] = [(7, 11, 21, 22)] /\ vsplits st [1] = [].
+Proof. exact vmaplog_example. Qed.
+Print Assumptions C03_maplog_versions_example.
+
+(* ... and with any number of restarts between the mutations (vseg_go: each restart replaces the live
+   family by the replayed logs): the same logs and, version by version, the same labels and split
+   records as the uninterrupted run of all the mutations (vsame); what a client reads through any
+   ancestry is then the same (C03_maplog_vsame_observable). *)
+Theorem C03_maplog_restarts_interleaved : forall ancs segs,
+  forallb (fun ops => forallb (fun vo => op_ok (snd vo)) ops) segs = true ->
+  vsame (vseg_go false ancs ([], []) segs) (vrun false ancs ([], []) (concat segs)).
+Proof. exact vsegs_refine_init. Qed.
+Print Assumptions C03_maplog_restarts_interleaved.
+
+Theorem C03_maplog_vsame_observable : forall a b anc, vsame a b ->
+  (forall sv, vmapped (fst a) anc sv = vmapped (fst b) anc sv) /\ vsplits (fst a) anc = vsplits (fst b) anc.
+Proof. exact vsame_obs. Qed.
+Print Assumptions C03_maplog_vsame_observable.
+
+Example C03_maplog_restarts_example :
+  forallb (fun ops => forallb (fun vo => op_ok (snd vo)) ops) vx_segs = true /\ concat vx_segs = vx_ops /\
+  vsplits (fst (vseg_go false vx_ancs ([], []) vx_segs)) [4; 2; 1] = [(9, 12, 23, 24); (7, 11, 21, 22)] /\
+  map (vmapped (fst (vseg_go false vx_ancs ([], []) vx_segs)) [3; 2; 1]) [11; 12; 21; 22; 23] = [0; 30; 10; 10; 23].
+Proof. exact vsegs_example. Qed.
+Print Assumptions C03_maplog_restarts_example.
 
 (* ---- reloaded label maxima ---- *)
 Theorem C03_maxlabel_reload : forall s, l_pmaxrepo s = Some (l_maxrepo s) ->
